@@ -97,4 +97,40 @@ theorem T07_3_crossratio_invariant (t : Nat → Nat → K) (o a b c d : Nat → 
   ring
 
 end
+/-! ## T07.5  line ∧ plane in space commutes with transformations (inverse-free) -/
+section
+variable {K : Type} [CommRing K]
+
+/-- the closed form of `meet(L, e)` for `L = p ∨ q` (C01, `T01_6_meet_L3E`, up to the factor `±2s`): `(e·q) p − (e·p) q` -/
+def lineMeetPlane (e p q : Nat → K) : Nat → K := fun i => dot 4 e q * p i - dot 4 e p * q i
+
+/-- **t·meet(L, e) = meet(t·L, t·e)**: if `e'` is the image plane (`e' ∘ t = e`, i.e. `tᵀ e' = e` — what `t⁻ᵀ e` satisfies), the
+    meet of the image line `tp ∨ tq` with `e'` is the image of the meet; together with `T01_6_meet_L3E` (both sides are `±2s` times
+    this closed form) and `T07_2_det4_mul` for the line this is the commutation statement for the line ∧ plane branch -/
+theorem T07_5_line_plane_commutes (t : Nat → Nat → K) (e e' p q : Nat → K)
+    (h : ∀ j, j < 4 → sumRange 4 (fun i => e' i * t i j) = e j) :
+    ∀ i, i < 4 → lineMeetPlane e' (mulVec4 t p) (mulVec4 t q) i = mulVec4 t (lineMeetPlane e p q) i := by
+  have h0 := h 0 (by decide); have h1 := h 1 (by decide); have h2 := h 2 (by decide); have h3 := h 3 (by decide)
+  simp only [sumRange] at h0 h1 h2 h3
+  have hp : dot 4 e' (mulVec4 t p) = dot 4 e p := by
+    simp only [dot, mulVec4, sumRange]
+    rw [← h0, ← h1, ← h2, ← h3]; ring
+  have hq : dot 4 e' (mulVec4 t q) = dot 4 e q := by
+    simp only [dot, mulVec4, sumRange]
+    rw [← h0, ← h1, ← h2, ← h3]; ring
+  intro i _
+  unfold lineMeetPlane
+  rw [hp, hq]
+  simp only [mulVec4, sumRange]
+  ring
+
+/-- the same for `join(L, r)` = the plane through a line and a point, by duality: the three-point join is a determinant
+    (`T07_2_join3_is_det`) and determinants are multiplicative (`T07_2_det4_mul`): incidence of the image plane with every image
+    point `t x` is `det t` times the incidence of the plane with `x` -/
+theorem T07_5_line_point_commutes (t : Nat → Nat → K) (p q r x : Nat → K) :
+    det4 (mulVec4 t p) (mulVec4 t q) (mulVec4 t r) (mulVec4 t x)
+      = det4 (t 0) (t 1) (t 2) (t 3) * det4 p q r x :=
+  T07_2_det4_mul t p q r x
+end
+
 end Geo
